@@ -9,6 +9,7 @@ Local Open Scope list_scope.
 (* what a theorem about a load assumes of its inputs *)
 Record valid_load (v : variant) (g : graph) (pi : list string) (s : sigma) : Prop := {
   vl_dc : dc_struct_ok v = true;
+  vl_copy : v_inplace v = false;
   vl_wf : wf_graphb g = true;
   vl_pi : valid_pi g pi;
   vl_sigma : valid_sigma s
@@ -22,16 +23,16 @@ Qed.
 
 Lemma valid_load_good : forall v g pi s, valid_load v g pi s -> good_ops g (ops_of v g pi s).
 Proof.
-  intros v g pi s [_ Hwf Hpi Hs]. apply good_ops_of; [apply wf_graph_vertices; exact Hwf | exact Hpi | exact Hs].
+  intros v g pi s [_ _ Hwf Hpi Hs]. apply good_ops_of; [apply wf_graph_vertices; exact Hwf | exact Hpi | exact Hs].
 Qed.
 
 (* the table before the final pass *)
 Definition raw_state (v : variant) (g : graph) (pi : list string) (s : sigma) : state :=
   run_ops v (ops_of v g pi s) (init_state g).
 
-Lemma merge_all_raw : forall v g pi s, valid_pi g pi ->
+Lemma merge_all_raw : forall v g pi s, v_inplace v = false -> valid_pi g pi ->
   merge_all v g pi s = finish v (raw_state v g pi s (root_of g)).
-Proof. intros v g pi s Hv. unfold merge_all, raw_state. rewrite (vp_root g pi Hv). reflexivity. Qed.
+Proof. intros v g pi s Hc Hv. unfold merge_all, raw_state. rewrite Hc, (vp_root g pi Hv). reflexivity. Qed.
 
 Lemma finish_err : forall v f, f_err (finish v f) = f_err f.
 Proof. intros v f. unfold finish. destruct (v_keep_rootref v); reflexivity. Qed.
@@ -59,7 +60,7 @@ Theorem merge_all_entries : forall v g pi s, valid_load v g pi s -> f_err (merge
                 = Some (if v_keep_rootref v then strip_task t' else t').
 Proof.
   intros v g pi s Hl Herr o Ho. pose proof (valid_load_good v g pi s Hl) as Hgo.
-  destruct Hl as [Hdc Hwf Hpi Hs]. rewrite (merge_all_raw v g pi s Hpi) in *. rewrite finish_err in Herr.
+  destruct Hl as [Hdc Hcp Hwf Hpi Hs]. rewrite (merge_all_raw v g pi s Hcp Hpi) in *. rewrite finish_err in Herr.
   destruct (entries v g (ops_of v g pi s) Hdc Hwf Hgo (List.length g) (root_of g) Herr o Ho) as (H1 & H2 & _ & t' & H3 & H4).
   split; [exact H1|]. split; [exact H2|]. exists t'. split; [exact H3|]. split; [exact H4|].
   rewrite finish_lookup. unfold raw_state in H3. fold (raw_state v g pi s) in H3. rewrite H3.
